@@ -249,7 +249,11 @@ func solvePath(ps *PathScript, workDir string, perQueryMs int, onlySolver string
 				if err := os.WriteFile(file, []byte(sv.Pre+cscript), 0o644); err != nil {
 					continue
 				}
-				res, secs, _ := runScript(sv, file, 3000, nobl)
+				lim := 3000
+				if strings.HasPrefix(sv.Name, "cvc5") {
+					lim = 1000 // cvc5 answers the goals it can do at once; the rest would only sit out the limit
+				}
+				res, secs, _ := runScript(sv, file, lim, nobl)
 				record(sv, secs)
 				for _, o := range ps.Obls {
 					if o.Trivial || o.Kind == "cover" {
